@@ -602,7 +602,8 @@ def ident_rule(ctx, sites):
     start = table("VAR_NAME_START_CHARS")
     chars = table("VAR_NAME_CHARS")
     pres = tc.const("VAR_NAME_INDEX_PRESERVE")
-    gv = [f for f in tc.fns if f.name == "get_var_name" and f.body]
+    # the name generator is whichever function indexes both tables (it has been a free fn and an associated fn)
+    gv = [f for f in tc.fns if f.body and {sir.expr_str(n["base"]) for n in sir.walk(f.body) if n.get("k") == "index"} >= {"VAR_NAME_START_CHARS", "VAR_NAME_CHARS"}]
     if not start or not chars or pres is None or len(gv) != 1:
         return [ob("C02.ident/anchor", False, "proc_gen/mod.rs", "identifier tables / name generator not found")]
     preserve = int(pres["e"]["v"])
